@@ -601,7 +601,9 @@ func (c *SpecCtx) quant(x *SExpr) Value {
 		}
 		var pp []string
 		for _, p := range ps {
-			pp = append(pp, patternTerms(p)...)
+			for _, q := range patternTerms(p) {
+				pp = append(pp, e.hoistItes(q))
+			}
 		}
 		if len(pp) > 0 {
 			pats = append(pats, ":pattern ("+strings.Join(pp, " ")+")")
@@ -752,6 +754,11 @@ func (c *SpecCtx) call(x *SExpr) Value {
 			return &Sc{T: res, Sort: sInt, Typ: types.Typ[types.String]}
 		}
 		return scInt(res)
+	case "tsecs", "tnanos":
+		return scInt(e.timeFn(x.Name, c.eval(x.Args[0])))
+	case "afrom":
+		e.declBytesFuncs()
+		return scInt(sx("|afrom!|", c.intTerm(c.eval(x.Args[0])), c.intTerm(c.eval(x.Args[1])), e.flatten(c.eval(x.Args[2]))[0]))
 	case "bchain":
 		// bchain(b): the byte string built so far by the *strings.Builder b
 		p, ok := c.eval(x.Args[0]).(*Ptr)
@@ -766,6 +773,14 @@ func (c *SpecCtx) call(x *SExpr) Value {
 		// asptr(x, T): the integer x (e.g. a trace component) as a *T
 		t := e.w.resolveType(c.pkg, x.Args[1].String())
 		return &Ptr{Kind: "obj", Ref: c.intTerm(c.eval(x.Args[0])), Root: t, Typ: types.NewPointer(t)}
+	case "sameslice":
+		// sameslice(a, b): the same slice header (backing array, offset, length)
+		a, ok1 := c.eval(x.Args[0]).(*Slice)
+		b, ok2 := c.eval(x.Args[1]).(*Slice)
+		if !ok1 || !ok2 {
+			specFail("sameslice needs two slices")
+		}
+		return boolV(mkAnd(mkEq(a.Arr, b.Arr), mkEq(a.Off, b.Off), mkEq(a.Len, b.Len)))
 	case "samearr":
 		a, ok1 := c.eval(x.Args[0]).(*Slice)
 		b, ok2 := c.eval(x.Args[1]).(*Slice)
